@@ -153,10 +153,10 @@ def run(ctx):
     ctx.cov['exhaustive_len_le4_over_16_symbols'] = n_exh
     ctx.cov['exhaustive'] = False
     ctx.cov['impl_distinct'] = sum(1 for o in recs if any(b in META or b < 32 or b > 126 for b in o['s']))
-    ctx.cov['longest_input'] = max(len(o['s']) for o in recs)
+    ctx.cov['longest_input'] = max([len(o['s']) for o in recs] or [0])
     ctx.cov['bytes_quoted'] = sum(len(o['s']) for o in recs)
     ctx.cov['aborted_cases'] = len(aborts)
-    for o in (recs[7], recs[len(recs) // 2]):
+    for o in [recs[min(k, len(recs) - 1)] for k in (7, len(recs) // 2) if recs]:
         ctx.sample({'s': repr(bytes(o['s'])[:48]), 'q': repr(bytes(o['q'])[:160])})
     ctx.cov['rule'] = ('all strings of length <= 4 over the 16 bytes %s (complete), every single byte 1..255 alone and between letters, '
                        'seeded random byte strings 5..16384 bytes (uniform bytes / only 6-byte escapes / text with entity-looking fragments), '
